@@ -644,6 +644,22 @@ fn validate_entry<S: ranger::Store<SignedEntry> + PublicKeyStore>(
     Ok(())
 }
 
+/// Verification hook: the validation `Replica::sync_process_message` applies to an incoming entry.
+#[cfg(iroh_docs_verif)]
+pub(crate) fn verif_validate<S: ranger::Store<SignedEntry> + PublicKeyStore>(
+    store: &S,
+    namespace: NamespaceId,
+    entry: &SignedEntry,
+    content_status: ContentStatus,
+) -> bool {
+    let origin = InsertOrigin::Sync {
+        from: [0u8; 32],
+        remote_content_status: content_status,
+    };
+    entry.validate_empty().is_ok()
+        && validate_entry(system_time_now(), store, namespace, entry, &origin).is_ok()
+}
+
 /// Error emitted when inserting entries into a [`Replica`] failed
 #[derive(thiserror::Error, derive_more::Debug, derive_more::From)]
 pub enum InsertError {
